@@ -68,9 +68,15 @@ class IntroduceFactory:
                         self.project, changed_code, self.resource
                     )
                     modname = libutils.modname(self.resource)
+                    taken = factory_name in new_pymodule
                     changed_code, imported = importutils.add_import(
                         self.project, new_pymodule, modname, factory_name
                     )
+                    if taken and imported == factory_name:
+                        raise exceptions.RefactoringError(
+                            "Module <%s> already has a name <%s>."
+                            % (file_.path, factory_name)
+                        )
                     changed_code = changed_code.replace(replacement, imported)
                 changes.add_change(ChangeContents(file_, changed_code))
             job_set.finished_job()
